@@ -7,27 +7,33 @@ import Knut.Generated.Census
 
 * `maprange` — a `range` over a map-typed expression, or over the result of a function that returns a slice in map order
   (dict.Keys, dict.Values, Set.Slice: found by a fixpoint, not by name); `mapcall` — a call of such a function elsewhere;
+* `mapcallback` — a call of a function that runs a function it is given inside a map range (multimap Node.PostOrder, Amounts.SumOver /
+  SumIntoBy / SumBy and what hands on to them), with that function, classified like the body of a map range;
 * `sortcall` — a call of a function that hands one of its parameters on as the comparator of a sort (dict.SortedKeys,
   dict.SortedValues, Set.Sorted, Amounts.Index, multimap Node.Sort), with the comparator in the fingerprint; `sort` — every call of
   sort.Slice / sort.Sort / slices.Sort* / compare.Sort;
 * `floatacc` — a float `+=`, `-=`, `*=`, `/=`, `x = x + …` (class `d` inside a map range or a channel range, `s` otherwise);
 * `nondet` — time.Now & co., math/rand, crypto/rand, os.Getenv / Getpid / Hostname …, runtime.NumCPU / GOMAXPROCS / Gosched.
 
-(Goroutines, channel operations and locks are in `FactsAgree/C06Conc.lean`.)  A `maprange` site is classified mechanically, first match:
-**a** the enclosing function is translated by the Go→Lean translator with the iteration order as an explicit parameter (the agreement
-theorem named in the comment quantifies over the orders); **b** the loop only appends to one slice whose first later use is the first
-argument of an unconditional sort; **c** the body only performs commutative-associative accumulation (exact decimals, integers, set
-inserts, writes under the loop's own key, min/max) guarded by pure conditions that read nothing the loop writes; **d** anything else —
-the fingerprint then carries a hash of the normalised body (locals numbered, string literals and comments dropped, no positions).
+(Goroutines, channel operations and locks are in `FactsAgree/C06Conc.lean`.)  A `maprange` / `mapcallback` site is classified mechanically from its body:
+**b** the loop only appends to one slice whose first later use is the first argument of an unconditional sort; **c** the body only performs
+commutative-associative accumulation (exact decimals, integers, set inserts, writes under the loop's own key, min/max) guarded by pure
+conditions that read nothing the loop writes; **d** anything else — the fingerprint then carries the effect tokens that disqualified it and a
+hash of the normalised body (locals numbered, string literals and comments dropped, no positions).  **Class a** is an attribute next to these:
+`Census.translated` lists the functions that the Go→Lean translator covers with every iteration order as an explicit parameter of the generated
+definitions; the comment of such a site names the agreement theorem that quantifies over the orders, a class-d site of such a function has the
+verdict `translated`, and `translated_still_covers` / `alsoTranslated_still_covered` check that the translator still covers them.  Kept apart
+from b/c/d on purpose: when the translator grows, the list grows and no site changes.
 
 This module is the REVIEWED expectation: one table per file (a changed, new or vanished site of a file fails the theorem named after
 the file), the list of files with their counts (a site in a file that had none), and the allowlist of the class-d sites, each with a
-verdict — `irrelevant` (the order cannot change the result), `unreachable` (no path to standard output) or `finding` (the order CAN
-reach standard output: a genuine defect, recorded in known_findings.jsonl and design/09-defects.md, never allowlisted as harmless) —,
+verdict — `irrelevant` (the order cannot change the result), `unreachable` (no path to standard output), `translated` (class a) or `finding`
+(the order CAN reach standard output: a genuine defect, recorded in known_findings.jsonl and design/09-defects.md, never allowlisted as harmless) —,
 the reason, and the theorem of `Properties/C06*.lean` that covers the shape.  `harness extract` also prints every difference as
 `census-new-site C06 <file>:<function>: <kind> class <c> [<fingerprint>]` (or `census-changed-site`, `census-gone-site`), which
 `bin/check` adds to the broken obligations.  After a change of /repo: re-run `harness extract`, REVIEW the printed sites, then edit the
-tables here (a site that can reach standard output in an order-dependent way is a finding, not an allowlist entry).
+tables here — `bin/census-sync --write` rewrites them in the generated order, keeps the comments of unchanged sites and marks the others
+`TODO REVIEW` (a site that can reach standard output in an order-dependent way is a finding, not an allowlist entry).
 
 What this does not show: that the mechanical classes are right for code the classifier has never seen (it is conservative: anything it
 does not recognise is class d), order leaks that are no `range`/sort/float/clock site (pointer values printed or compared, `select`
@@ -60,13 +66,13 @@ theorem census_cmd_importer_revolut2_revolut2_go : Census.cmd_importer_revolut2_
 /-- `lib/amounts/amounts.go` -/
 def lib_amounts_amounts_go : List Site := [
   -- class a: TransAmountsSum.Clone_agrees (every permutation of the keys)
-  ("lib/amounts/amounts.go", "Amounts.Clone", "maprange", "a", "over amounts.Amounts; translated with the order as a parameter"),
+  ("lib/amounts/amounts.go", "Amounts.Clone", "maprange", "c", "over amounts.Amounts; put[k]"),
   -- class a: TransAmountsSum.Commodities_agrees (every permutation of the keys)
-  ("lib/amounts/amounts.go", "Amounts.Commodities", "maprange", "a", "over amounts.Amounts; translated with the order as a parameter"),
+  ("lib/amounts/amounts.go", "Amounts.Commodities", "maprange", "c", "over amounts.Amounts; acc:set.Set.Add"),
   -- TransAmountsSum.CommoditiesSorted_agrees: sorted by name for every order; commodity.Compare is total on interned commodities (commodity_Compare_smaller)
   ("lib/amounts/amounts.go", "Amounts.CommoditiesSorted", "sortcall", "b", "dict.SortedKeys by commodity.Compare"),
   -- class a: TransAmountsSum.Dates_agrees
-  ("lib/amounts/amounts.go", "Amounts.Dates", "maprange", "a", "over amounts.Amounts; translated with the order as a parameter"),
+  ("lib/amounts/amounts.go", "Amounts.Dates", "maprange", "c", "over amounts.Amounts; acc:set.Set.Add"),
   -- TransAmountsSum.DatesSorted_agrees; compare.Time is a total order on UTC-midnight dates (compare_Time_eq)
   ("lib/amounts/amounts.go", "Amounts.DatesSorted", "sortcall", "b", "dict.SortedKeys by compare.Time"),
   -- sorted only when the comparator is not nil: every CALLER is a `sortcall` site of its own with its comparator in the fingerprint (a nil comparator is class d there)
@@ -74,15 +80,15 @@ def lib_amounts_amounts_go : List Site := [
   -- see the callers
   ("lib/amounts/amounts.go", "Amounts.Index", "sort", "-", "compare.Sort by <param>"),
   -- class a: TransAmountsSum.Minus_agrees
-  ("lib/amounts/amounts.go", "Amounts.Minus", "maprange", "a", "over amounts.Amounts; translated with the order as a parameter"),
+  ("lib/amounts/amounts.go", "Amounts.Minus", "maprange", "c", "over amounts.Amounts; dec.Sub"),
   -- class a: TransAmountsSum.Plus_agrees
-  ("lib/amounts/amounts.go", "Amounts.Plus", "maprange", "a", "over amounts.Amounts; translated with the order as a parameter"),
+  ("lib/amounts/amounts.go", "Amounts.Plus", "maprange", "c", "over amounts.Amounts; dec.Add"),
   -- class a: TransAmountsSum.SumIntoBy_agrees (every permutation of the keys; every order of the deletion loop that reaches all keys)
-  ("lib/amounts/amounts.go", "Amounts.SumIntoBy", "maprange", "a", "over amounts.Amounts; translated with the order as a parameter"),
+  ("lib/amounts/amounts.go", "Amounts.SumIntoBy", "maprange", "c", "over amounts.Amounts; delete[k]"),
   -- class a: TransAmountsSum.SumIntoBy_agrees (every permutation of the keys; every order of the deletion loop that reaches all keys)
-  ("lib/amounts/amounts.go", "Amounts.SumIntoBy", "maprange", "a", "over amounts.Amounts; translated with the order as a parameter"),
+  ("lib/amounts/amounts.go", "Amounts.SumIntoBy", "maprange", "d", "over amounts.Amounts; dec.Add,call:value h=0e5d1e16"),
   -- class a: TransAmountsSum.SumOver_agrees (= the filtered sum, C06_sum_oracle_irrelevant)
-  ("lib/amounts/amounts.go", "Amounts.SumOver", "maprange", "a", "over amounts.Amounts; translated with the order as a parameter")
+  ("lib/amounts/amounts.go", "Amounts.SumOver", "maprange", "d", "over amounts.Amounts; dec.Add,call:value h=3839e290")
 ]
 theorem census_lib_amounts_amounts_go : Census.lib_amounts_amounts_go = lib_amounts_amounts_go := rfl
 
@@ -164,7 +170,7 @@ theorem census_lib_journal_beancount_beancount_go : Census.lib_journal_beancount
 /-- `lib/journal/check/check.go` -/
 def lib_journal_check_check_go : List Site := [
   -- class a: TransCheck.close_agrees (every order that reaches all keys; which non-zero position an error names is in the error text on stderr)
-  ("lib/journal/check/check.go", "Checker.close", "maprange", "a", "over amounts.Amounts; translated with the order as a parameter"),
+  ("lib/journal/check/check.go", "Checker.close", "maprange", "d", "over amounts.Amounts; delete[k],return h=38c580c5"),
   -- `check --write`: balances collected, then sorted by assertion.CompareBalance (account, commodity: total on the keys AccountCommodityKey) - C06_sort_oracle_irrelevant; tied by c06.go's `check --write` runs
   ("lib/journal/check/check.go", "Checker.dayEnd", "maprange", "b", "over amounts.Amounts; append then slices.SortFunc by assertion.CompareBalance"),
   -- see the map range
@@ -204,7 +210,7 @@ def lib_journal_performance_performance_go : List Site := [
   -- ALLOWLISTED (irrelevant): see the map range
   ("lib/journal/performance/performance.go", "Calculator.ComputeValues", "floatacc", "d", "+= element in maprange"),
   -- class a: TransPerformance.ComputeValues_range_agrees / ComputeValues_DayEnd_agrees (every iteration order); the keys of `values` are CommodityKey(c) only, so every float cell of the fresh map gets exactly one addend
-  ("lib/journal/performance/performance.go", "Calculator.ComputeValues", "maprange", "a", "over amounts.Amounts; translated with the order as a parameter"),
+  ("lib/journal/performance/performance.go", "Calculator.ComputeValues", "maprange", "d", "over amounts.Amounts; float+=,write-through-expression h=a5f485a1"),
   -- running product over the days in date order (the days are sorted; cpr.Seq keeps the order: C19)
   ("lib/journal/performance/performance.go", "Perf", "floatacc", "s", "*= var in closure"),
   -- one addend each (v0 += sum(...))
@@ -220,7 +226,7 @@ def lib_journal_performance_performance_go : List Site := [
   -- ALLOWLISTED (irrelevant): see the map range
   ("lib/journal/performance/performance.go", "split", "floatacc", "d", "+= element in maprange"),
   -- class a: translated (Generated.TransPerformance.split takes the order); agreement theorem pending (TransPerformance part 1: ComputeValues, sum, Performance); the cells are indexed by the loop's own key: one addend per cell and call
-  ("lib/journal/performance/performance.go", "split", "maprange", "a", "over map[*commodity.Commodity]float64; translated with the order as a parameter"),
+  ("lib/journal/performance/performance.go", "split", "maprange", "d", "over map[*commodity.Commodity]float64; float+=,write-through-expression h=d1f0968f"),
   -- over the keys sorted by name (fix 6606650): fixed order
   ("lib/journal/performance/performance.go", "sum", "floatacc", "s", "+= var in range"),
   -- commodity.Compare is total on interned commodities
@@ -238,11 +244,11 @@ theorem census_lib_journal_performance_universe_go : Census.lib_journal_performa
 /-- `lib/journal/process.go` -/
 def lib_journal_process_go : List Site := [
   -- class a: TransProcess.Close_range_agrees / CloseAccounts_day_agrees (closing transactions in the order of the keys; sorted by the Sort stage, summed by the reports)
-  ("lib/journal/process.go", "CloseAccounts", "maprange", "a", "over amounts.Amounts; translated with the order as a parameter"),
+  ("lib/journal/process.go", "CloseAccounts", "maprange", "d", "over amounts.Amounts; append h=aae72965"),
   -- the Sort stage: a day's transactions by transaction.Compare = cmpTx
   ("lib/journal/process.go", "Sort", "sort", "-", "compare.Sort by transaction.Compare"),
   -- class a: TransProcess.DayStart_range_agrees / Valuate_DayStart_agrees (adjustment transactions in the order of the keys, for every order; sorted by the Sort stage, summed by the reports)
-  ("lib/journal/process.go", "Valuate", "maprange", "a", "over amounts.Amounts; translated with the order as a parameter")
+  ("lib/journal/process.go", "Valuate", "maprange", "d", "over amounts.Amounts; append,call:account.Registry.ValuationAccountFor,return h=59989ba6")
 ]
 theorem census_lib_journal_process_go : Census.lib_journal_process_go = lib_journal_process_go := rfl
 
@@ -260,18 +266,37 @@ def lib_model_price_prices_go : List Site := [
 ]
 theorem census_lib_model_price_prices_go : Census.lib_model_price_prices_go = lib_model_price_prices_go := rfl
 
+/-- `lib/reports/balance/renderer.go` -/
+def lib_reports_balance_renderer_go : List Site := [
+  -- ALLOWLISTED (irrelevant): the mapper handed to Totals (→ PostOrder → SumIntoBy, run in map order) is KeyMapper{Date: Identity, Commodity: IdentityIf(b)}.Build(): a pure function of the key (TransAmountsSum.KeyMapper_Build_agrees, TransReportTotals.mfR_Build)
+  ("lib/reports/balance/renderer.go", "Renderer.Render", "mapcallback", "d", "balance.Report.Totals with #b6a538bd"),
+  -- ALLOWLISTED (irrelevant): the same mapper handed to SumBy; TransAmountsSum.SumBy_agrees holds for every order
+  ("lib/reports/balance/renderer.go", "Renderer.renderNode", "mapcallback", "d", "amounts.Amounts.SumBy with #7340a964")
+]
+theorem census_lib_reports_balance_renderer_go : Census.lib_reports_balance_renderer_go = lib_reports_balance_renderer_go := rfl
+
 /-- `lib/reports/balance/report.go` -/
 def lib_reports_balance_report_go : List Site := [
   -- children by segment: total on siblings (distinct segments); C06Report.rows_order_perm
   ("lib/reports/balance/report.go", "Report.SortAlpha", "sortcall", "b", "multimap.Node.Sort by local{#7e61bf03}"),
   -- children by segment: total on siblings (distinct segments); C06Report.rows_order_perm
   ("lib/reports/balance/report.go", "Report.SortAlpha", "sortcall", "b", "multimap.Node.Sort by local{#7e61bf03}"),
+  -- class a: the filter `k.Valuation != nil` handed to SumOver is pure (TransAmountsSum.SumOver_agrees: every order)
+  ("lib/reports/balance/report.go", "Report.SortWeighted", "mapcallback", "d", "amounts.Amounts.SumOver with a function literal; return h=e3490b2d"),
+  -- class a: computeWeights run in post-order over AL (children of every node in map order: MNode.postOrder takes the order per path); it writes the visited node's Weight from exact decimals
+  ("lib/reports/balance/report.go", "Report.SortWeighted", "mapcallback", "d", "multimap.Node.PostOrder with a function literal; assign,call:amounts.Amounts.SumOver,write-through-local-reference h=99d77b96"),
+  -- class a: the same over EIE
+  ("lib/reports/balance/report.go", "Report.SortWeighted", "mapcallback", "d", "multimap.Node.PostOrder with a function literal; assign,call:amounts.Amounts.SumOver,write-through-local-reference h=99d77b96"),
   -- class a: translated (Generated.TransReport.Report.SortWeighted takes the children's order per path); no agreement theorem yet; the weights are exact decimals added up: C06_comm_fold_oracle_irrelevant
-  ("lib/reports/balance/report.go", "Report.SortWeighted", "maprange", "a", "over map[string]*multimap.Node[balance.Value]; translated with the order as a parameter"),
+  ("lib/reports/balance/report.go", "Report.SortWeighted", "maprange", "c", "over map[string]*multimap.Node[balance.Value]; dec.Add"),
   -- (type at level 1, weight, segment): total on siblings; C06Report.rows_order_perm, table_perm (needs accounts that start with a type name: table_perm_needs_wf)
   ("lib/reports/balance/report.go", "Report.SortWeighted", "sortcall", "b", "multimap.Node.Sort by local{#7080b596}"),
   -- (type at level 1, weight, segment): total on siblings; C06Report.rows_order_perm, table_perm (needs accounts that start with a type name: table_perm_needs_wf)
   ("lib/reports/balance/report.go", "Report.SortWeighted", "sortcall", "b", "multimap.Node.Sort by local{#7080b596}"),
+  -- class a: TransReportTotals.Totals_agrees (every iteration order of every node's amounts and children): the closure sums the node's amounts into the AL total
+  ("lib/reports/balance/report.go", "Report.Totals", "mapcallback", "d", "multimap.Node.PostOrder with a function literal; call:amounts.Amounts.SumIntoBy h=b6dc443e"),
+  -- class a: the same for EIE
+  ("lib/reports/balance/report.go", "Report.Totals", "mapcallback", "d", "multimap.Node.PostOrder with a function literal; call:amounts.Amounts.SumIntoBy h=b6dc443e"),
   -- ALLOWLISTED (irrelevant): first child in map order whose account is below level 1 decides, but every child's account has the node's path as its parent, so all candidates are the same registry account
   ("lib/reports/balance/report.go", "setAccounts", "maprange", "d", "over map[string]*multimap.Node[balance.Value]; assign,call:balance.setAccounts,reads-what-the-loop-writes h=195dfa7d")
 ]
@@ -302,12 +327,16 @@ def lib_reports_weights_weights_go : List Site := [
   ("lib/reports/weights/weights.go", "Report.Add", "floatacc", "s", "+= element in straight"),
   -- ALLOWLISTED (irrelevant): see the map range
   ("lib/reports/weights/weights.go", "Report.PropagateWeights", "floatacc", "d", "+= element in maprange"),
+  -- ALLOWLISTED (irrelevant): the closure writes only the visited node's Weights, from its children (complete in post-order, taken in name order); siblings are independent
+  ("lib/reports/weights/weights.go", "Report.PropagateWeights", "mapcallback", "d", "multimap.Node.PostOrder with a function literal; assign,call:dict.SortedKeys,float+=,write-through-local-reference h=07a58be6"),
   -- ALLOWLISTED (irrelevant): the parent's cell of the loop's own key (the date) gets one addend per child, and the children come in name order (fix 19865c1)
   ("lib/reports/weights/weights.go", "Report.PropagateWeights", "maprange", "d", "over map[time.Time]float64; float+= h=1e0e5819"),
   -- fix 19865c1: children in name order; strings: total
   ("lib/reports/weights/weights.go", "Report.PropagateWeights", "sortcall", "b", "dict.SortedKeys by compare.Ordered[string]"),
   -- over the dates in ascending order (fix 19865c1): fixed order
   ("lib/reports/weights/weights.go", "Report.SortWeighted", "floatacc", "s", "+= var in range"),
+  -- ALLOWLISTED (irrelevant): the closure writes only the visited node's Weight, from its own Weights in date order
+  ("lib/reports/weights/weights.go", "Report.SortWeighted", "mapcallback", "d", "multimap.Node.PostOrder with a function literal; assign,call:dict.SortedKeys,write-through-local-reference h=a3074081"),
   -- fix 19865c1; compare.Time is total
   ("lib/reports/weights/weights.go", "Report.SortWeighted", "sortcall", "b", "dict.SortedKeys by compare.Time"),
   -- (weight, segment) with weights compared exactly: total on siblings
@@ -350,9 +379,10 @@ theorem census_files_and_counts : Census.files = [
   ("lib/journal/process.go", 3),
   ("lib/model/account/registry.go", 1),
   ("lib/model/price/prices.go", 1),
-  ("lib/reports/balance/report.go", 6),
+  ("lib/reports/balance/renderer.go", 2),
+  ("lib/reports/balance/report.go", 11),
   ("lib/reports/register/register.go", 2),
-  ("lib/reports/weights/weights.go", 12),
+  ("lib/reports/weights/weights.go", 14),
   ("lib/syntax/bayes/bayes.go", 5)
 ] := rfl
 
@@ -360,7 +390,8 @@ theorem census_files_and_counts : Census.files = [
 
 structure Allowed where
   site : Site
-  /-- `irrelevant`: the order cannot change the result; `unreachable`: no path to standard output; `finding`: a genuine defect (recorded) -/
+  /-- `irrelevant`: the order cannot change the result; `unreachable`: no path to standard output; `finding`: a genuine defect (recorded);
+      `translated`: the site lies in a function of `Census.translated` (class a) and the named agreement theorem quantifies over the order -/
   verdict : String
   reason : String
   /-- the theorem of Properties/C06*.lean whose shape this is -/
@@ -370,6 +401,12 @@ def allowlist : List Allowed := [
   ⟨("cmd/commands/fetch.go", "fetchRunner.writeFile", "maprange", "d", "over map[time.Time]*price.Price; call:journal.Builder.Add h=858a3c3a"),
    "irrelevant", "the map is keyed by date and Builder.Add puts every price into the day of its own date; the file is printed from the days sorted by date",
    "C06_journal_deterministic"⟩,
+  ⟨("lib/amounts/amounts.go", "Amounts.SumIntoBy", "maprange", "d", "over amounts.Amounts; dec.Add,call:value h=0e5d1e16"),
+   "translated", "TransAmountsSum.SumIntoBy_agrees: for every permutation of the keys every lookup is dest[x] + the sum of am[k] over the keys that pred accepts and mapr sends to x; pred and mapr are the callers' functions (their `mapcallback` sites)",
+   "C06_sum_oracle_irrelevant"⟩,
+  ⟨("lib/amounts/amounts.go", "Amounts.SumOver", "maprange", "d", "over amounts.Amounts; dec.Add,call:value h=3839e290"),
+   "translated", "TransAmountsSum.SumOver_agrees: the filtered sum, for every permutation of the keys; pred is the caller's function (`mapcallback` site)",
+   "C06_sum_oracle_irrelevant"⟩,
   ⟨("lib/common/dict/dict.go", "Keys", "maprange", "d", "over map[K]V; append unsorted h=a6ce1bcd"),
    "irrelevant", "hands out map order; every call is a site of its own: SortedKeys sorts at once with the caller's comparator",
    "C06_sort_oracle_irrelevant"⟩,
@@ -385,6 +422,9 @@ def allowlist : List Allowed := [
   ⟨("lib/common/set/set.go", "Set.Slice", "maprange", "d", "over set.Set[T]; append unsorted h=a6ce1bcd"),
    "irrelevant", "hands out map order; its only caller Set.Sorted sorts at once with the caller's comparator",
    "C06_sort_oracle_irrelevant"⟩,
+  ⟨("lib/journal/check/check.go", "Checker.close", "maprange", "d", "over amounts.Amounts; delete[k],return h=38c580c5"),
+   "translated", "TransCheck.close_agrees: for every order that reaches all keys the account is rejected iff one of its positions is not zero (close_loop_error / close_loop_ok); which position the message names goes to stderr",
+   "C06_comm_fold_oracle_irrelevant"⟩,
   ⟨("lib/journal/journal.go", "Performance.String", "maprange", "d", "over map[*commodity.Commodity]float64; call:fmt.Fprintf h=4f787498"),
    "unreachable", "debugging helper without callers; no fmt verb receives a Performance",
    "-"⟩,
@@ -406,27 +446,66 @@ def allowlist : List Allowed := [
   ⟨("lib/journal/performance/performance.go", "Calculator.ComputeValues", "floatacc", "d", "+= element in maprange"),
    "irrelevant", "the keys of values are CommodityKey(c) only, so k -> k.Commodity is injective: every float cell of the fresh map gets exactly one addend",
    "C06_comm_fold_oracle_irrelevant"⟩,
+  ⟨("lib/journal/performance/performance.go", "Calculator.ComputeValues", "maprange", "d", "over amounts.Amounts; float+=,write-through-expression h=a5f485a1"),
+   "translated", "TransPerformance.ComputeValues_range_agrees / ComputeValues_DayEnd_agrees for every iteration order; the keys of values are CommodityKey(c) only, so every float cell of the fresh map gets exactly one addend",
+   "C06_comm_fold_oracle_irrelevant"⟩,
   ⟨("lib/journal/performance/performance.go", "split", "floatacc", "d", "+= element in maprange"),
    "irrelevant", "the cells are indexed by the loop's own key: one addend per cell and call",
    "C06_comm_fold_oracle_irrelevant"⟩,
   ⟨("lib/journal/performance/performance.go", "split", "floatacc", "d", "+= element in maprange"),
    "irrelevant", "the cells are indexed by the loop's own key: one addend per cell and call",
+   "C06_comm_fold_oracle_irrelevant"⟩,
+  ⟨("lib/journal/performance/performance.go", "split", "maprange", "d", "over map[*commodity.Commodity]float64; float+=,write-through-expression h=d1f0968f"),
+   "translated", "Generated.TransPerformance.split takes the order (agreement theorem pending, TransPerformance part 1); the cells are indexed by the loop's own key: one addend per cell and call",
    "C06_comm_fold_oracle_irrelevant"⟩,
   ⟨("lib/journal/performance/universe.go", "fromYAML", "maprange", "d", "over performance.yamlUniverseFile; append,call:commodity.Registry.Get,reads-what-the-loop-writes,return h=043f90dd"),
    "irrelevant", "a commodity listed twice is an error whichever class is met first (exit status and stdout do not depend on the order; the message on stderr names the commodity); otherwise every commodity is written once under its own key; Registry.Get is get-or-create",
    "C06_comm_fold_oracle_irrelevant"⟩,
+  ⟨("lib/journal/process.go", "CloseAccounts", "maprange", "d", "over amounts.Amounts; append h=aae72965"),
+   "translated", "TransProcess.Close_range_agrees / CloseAccounts_day_agrees: the closing transactions are appended in the order of the keys, for every order; the day's transactions are sorted by the Sort stage (print, register, transcode) or summed (balance)",
+   "C06_sorted_fold_oracle_irrelevant"⟩,
+  ⟨("lib/journal/process.go", "Valuate", "maprange", "d", "over amounts.Amounts; append,call:account.Registry.ValuationAccountFor,return h=59989ba6"),
+   "translated", "TransProcess.DayStart_range_agrees / Valuate_DayStart_agrees: the adjustment transactions are appended in the order of the keys, for every order; sorted by the Sort stage or summed; a missing price is an error whichever position meets it first",
+   "C06_sorted_fold_oracle_irrelevant"⟩,
   ⟨("lib/model/account/registry.go", "NewRegistry", "maprange", "d", "over map[string]account.Type; call:account.Registry.Get h=733eecfd"),
    "irrelevant", "creates the five type accounts, each under its own name",
    "C06_comm_fold_oracle_irrelevant"⟩,
+  ⟨("lib/reports/balance/renderer.go", "Renderer.Render", "mapcallback", "d", "balance.Report.Totals with #b6a538bd"),
+   "irrelevant", "the mapper handed to Totals (run in map order by PostOrder and SumIntoBy) is KeyMapper{Date: Identity, Commodity: IdentityIf(b)}.Build(), a pure function of the key (TransAmountsSum.KeyMapper_Build_agrees, TransReportTotals.mfR_Build, Totals_agrees for every order)",
+   "C06_report_cells_deterministic"⟩,
+  ⟨("lib/reports/balance/renderer.go", "Renderer.renderNode", "mapcallback", "d", "amounts.Amounts.SumBy with #7340a964"),
+   "irrelevant", "the same pure mapper handed to SumBy (TransAmountsSum.SumBy_agrees for every order)",
+   "C06_report_cells_deterministic"⟩,
+  ⟨("lib/reports/balance/report.go", "Report.SortWeighted", "mapcallback", "d", "amounts.Amounts.SumOver with a function literal; return h=e3490b2d"),
+   "translated", "the filter k.Valuation != nil handed to SumOver is pure (TransAmountsSum.SumOver_agrees for every order)",
+   "C06_sum_oracle_irrelevant"⟩,
+  ⟨("lib/reports/balance/report.go", "Report.SortWeighted", "mapcallback", "d", "multimap.Node.PostOrder with a function literal; assign,call:amounts.Amounts.SumOver,write-through-local-reference h=99d77b96"),
+   "translated", "the filter k.Valuation != nil handed to SumOver is pure (TransAmountsSum.SumOver_agrees for every order)",
+   "C06_sum_oracle_irrelevant"⟩,
+  ⟨("lib/reports/balance/report.go", "Report.SortWeighted", "mapcallback", "d", "multimap.Node.PostOrder with a function literal; assign,call:amounts.Amounts.SumOver,write-through-local-reference h=99d77b96"),
+   "translated", "the filter k.Valuation != nil handed to SumOver is pure (TransAmountsSum.SumOver_agrees for every order)",
+   "C06_sum_oracle_irrelevant"⟩,
+  ⟨("lib/reports/balance/report.go", "Report.Totals", "mapcallback", "d", "multimap.Node.PostOrder with a function literal; call:amounts.Amounts.SumIntoBy h=b6dc443e"),
+   "translated", "TransReportTotals.Totals_agrees: for every iteration order of every node's amounts and children each total holds per key the sum of the inserted amounts of its section",
+   "C06_report_cells_deterministic"⟩,
+  ⟨("lib/reports/balance/report.go", "Report.Totals", "mapcallback", "d", "multimap.Node.PostOrder with a function literal; call:amounts.Amounts.SumIntoBy h=b6dc443e"),
+   "translated", "TransReportTotals.Totals_agrees: for every iteration order of every node's amounts and children each total holds per key the sum of the inserted amounts of its section",
+   "C06_report_cells_deterministic"⟩,
   ⟨("lib/reports/balance/report.go", "setAccounts", "maprange", "d", "over map[string]*multimap.Node[balance.Value]; assign,call:balance.setAccounts,reads-what-the-loop-writes h=195dfa7d"),
    "irrelevant", "the first child in map order whose account is below level 1 decides, but every child's account has this node's path as its parent, so every candidate is the same registry account",
    "C06Report.table_perm"⟩,
   ⟨("lib/reports/weights/weights.go", "Report.PropagateWeights", "floatacc", "d", "+= element in maprange"),
    "irrelevant", "the parent's cell of the loop's own key (the date) gets one addend per child; the children come in name order since fix 19865c1",
    "C06_sorted_fold_oracle_irrelevant"⟩,
+  ⟨("lib/reports/weights/weights.go", "Report.PropagateWeights", "mapcallback", "d", "multimap.Node.PostOrder with a function literal; assign,call:dict.SortedKeys,float+=,write-through-local-reference h=07a58be6"),
+   "irrelevant", "the closure PostOrder runs (siblings in map order) writes only the visited node's Weights, from its children, which post-order has completed and which are taken in name order",
+   "C06_comm_fold_oracle_irrelevant"⟩,
   ⟨("lib/reports/weights/weights.go", "Report.PropagateWeights", "maprange", "d", "over map[time.Time]float64; float+= h=1e0e5819"),
    "irrelevant", "the parent's cell of the loop's own key (the date) gets one addend per child; the children come in name order since fix 19865c1",
    "C06_sorted_fold_oracle_irrelevant"⟩,
+  ⟨("lib/reports/weights/weights.go", "Report.SortWeighted", "mapcallback", "d", "multimap.Node.PostOrder with a function literal; assign,call:dict.SortedKeys,write-through-local-reference h=a3074081"),
+   "irrelevant", "the closure writes only the visited node's Weight, the sum of its own Weights in date order",
+   "C06_comm_fold_oracle_irrelevant"⟩,
   ⟨("lib/syntax/bayes/bayes.go", "Model.update", "maprange", "d", "over set.Set[bayes.token]; int+=,write-through-expression h=df28d4e3"),
    "irrelevant", "one integer counter per (token, account) is incremented; the tokens of a set are pairwise different",
    "C06_comm_fold_oracle_irrelevant"⟩
@@ -435,7 +514,19 @@ def allowlist : List Allowed := [
 /-- every site that is not mechanically classified as harmless is in the reviewed allowlist, and nothing else is -/
 theorem classD_is_the_allowlist : Census.classD = allowlist.map (·.site) := by decide +kernel
 
-theorem allowlist_verdicts : allowlist.all (fun a => ["irrelevant", "unreachable", "finding"].contains a.verdict) = true := by decide
+theorem allowlist_verdicts : allowlist.all (fun a => ["irrelevant", "unreachable", "finding", "translated"].contains a.verdict) = true := by decide
+
+/-- class a: every site whose verdict relies on the translator lies in a function that the translator still covers with the iteration
+order as an explicit parameter (`Census.translated` is regenerated from Generated/Trans.lean on every run; it may GROW without a change here) -/
+theorem translated_still_covers :
+    (allowlist.filter (·.verdict == "translated")).all (fun a => Census.translated.contains (a.site.1, a.site.2.1)) = true := by decide
+
+/-- the class-c sites (commutative accumulation, recognised mechanically) that the review also ties to an agreement theorem of the translator -/
+def alsoTranslated : List (String × String) := [
+  ("lib/amounts/amounts.go", "Amounts.Clone"), ("lib/amounts/amounts.go", "Amounts.Commodities"), ("lib/amounts/amounts.go", "Amounts.Dates"),
+  ("lib/amounts/amounts.go", "Amounts.Minus"), ("lib/amounts/amounts.go", "Amounts.Plus"), ("lib/amounts/amounts.go", "Amounts.SumIntoBy"),
+  ("lib/reports/balance/report.go", "Report.SortWeighted")]
+theorem alsoTranslated_still_covered : alsoTranslated.all (fun x => Census.translated.contains x) = true := by decide
 
 /-- the OPEN findings among the class-d sites (function, kind): order-dependent and reaching standard output, not claimed harmless.
 None at /repo 54048cb: the review found `weights-float-sum-in-map-order` (portfolio weights: float sums in map order in Query.Execute,
